@@ -63,6 +63,40 @@ fn w<T, F: FnOnce(&mut BitBuffer) -> Result<T, Error>, G: FnOnce(T) -> String>(f
     }
 }
 
+/// `w2!(|b| <write through b>, <extra>)`: `w`, and the same write through the SLICE writer
+/// `(&mut [u8], &mut usize)` into a destination that is all one-bits, starting at bit 3: the bits written
+/// must be the same and nothing else may change (a writer re-used for a second message)
+macro_rules! w2 {
+    (|$b:ident| $body:expr, $g:expr) => {{
+        let first = w(|$b| $body, $g);
+        match first.strip_prefix("ok ") {
+            None => first,
+            Some(rest) => {
+                let bits = rest.split(' ').next().unwrap_or("-");
+                let n = if bits == "-" { 0 } else { bits.len() };
+                let mut buf = vec![0xFFu8; (n + 3 + 7) / 8 + 2];
+                let mut pos = 3usize;
+                let res = {
+                    let mut sw = (&mut buf[..], &mut pos);
+                    let $b = &mut sw;
+                    $body.map(|_| ())
+                };
+                let mut want = vec![0xFFu8; buf.len()];
+                for (i, c) in bits.chars().enumerate().filter(|_| n > 0) {
+                    if c == '0' {
+                        want[(3 + i) / 8] &= !(0x80u8 >> ((3 + i) % 8));
+                    }
+                }
+                if res.is_ok() && pos == 3 + n && buf == want {
+                    first.clone()
+                } else {
+                    format!("slice-differs [{}] pos={} ok={}", bits, pos, res.is_ok())
+                }
+            }
+        }
+    }};
+}
+
 fn r<T, F: FnOnce(&mut Bits<'_>) -> Result<T, Error>, G: FnOnce(T) -> String>(bits: &str, f: F, g: G) -> Option<String> {
     let (bytes, len) = string_to_bits(bits)?;
     let mut rd = Bits::from((&bytes[..], len));
@@ -76,42 +110,42 @@ pub fn handle(args: &[&str]) -> Option<String> {
     Some(match args {
         ["w-nnbi", lb, ub, v] => {
             let (lb, ub, v) = (opt_u64(lb)?, opt_u64(ub)?, v.parse().ok()?);
-            w(|b| b.write_non_negative_binary_integer(lb, ub, v), |_| String::new())
+            w2!(|b| b.write_non_negative_binary_integer(lb, ub, v), |_| String::new())
         }
         ["w-len", lb, ub, v] => {
             let (lb, ub, v) = (opt_u64(lb)?, opt_u64(ub)?, v.parse().ok()?);
-            w(|b| b.write_length_determinant(lb, ub, v), |f| match f {
+            w2!(|b| b.write_length_determinant(lb, ub, v), |f| match f {
                 None => "none".to_string(),
                 Some(x) => x.to_string(),
             })
         }
         ["w-2s", bl, v] => {
             let (bl, v) = (bl.parse().ok()?, v.parse().ok()?);
-            w(|b| b.write_2s_compliment_binary_integer(bl, v), |_| String::new())
+            w2!(|b| b.write_2s_compliment_binary_integer(bl, v), |_| String::new())
         }
         ["w-con", lb, ub, v] => {
             let (lb, ub, v) = (lb.parse().ok()?, ub.parse().ok()?, v.parse().ok()?);
-            w(|b| b.write_constrained_whole_number(lb, ub, v), |_| String::new())
+            w2!(|b| b.write_constrained_whole_number(lb, ub, v), |_| String::new())
         }
         ["w-small", v] => {
             let v = v.parse().ok()?;
-            w(|b| b.write_normally_small_non_negative_whole_number(v), |_| String::new())
+            w2!(|b| b.write_normally_small_non_negative_whole_number(v), |_| String::new())
         }
         ["w-semi", lb, v] => {
             let (lb, v) = (lb.parse().ok()?, v.parse().ok()?);
-            w(|b| b.write_semi_constrained_whole_number(lb, v), |_| String::new())
+            w2!(|b| b.write_semi_constrained_whole_number(lb, v), |_| String::new())
         }
         ["w-unc", v] => {
             let v = v.parse().ok()?;
-            w(|b| b.write_unconstrained_whole_number(v), |_| String::new())
+            w2!(|b| b.write_unconstrained_whole_number(v), |_| String::new())
         }
         ["w-idx", std, ext, i] => {
             let (std, ext, i) = (std.parse().ok()?, pbool(ext)?, i.parse().ok()?);
-            w(|b| b.write_enumeration_index(std, ext, i), |_| String::new())
+            w2!(|b| b.write_enumeration_index(std, ext, i), |_| String::new())
         }
         ["w-oct", lb, ub, ext, h] => {
             let (lb, ub, ext, data) = (opt_u64(lb)?, opt_u64(ub)?, pbool(ext)?, unhex(h)?);
-            w(|b| b.write_octetstring(lb, ub, ext, &data), |_| String::new())
+            w2!(|b| b.write_octetstring(lb, ub, ext, &data), |_| String::new())
         }
         ["w-bits", lb, ub, ext, bits] => {
             let (lb, ub, ext) = (opt_u64(lb)?, opt_u64(ub)?, pbool(ext)?);
@@ -121,7 +155,7 @@ pub fn handle(args: &[&str]) -> Option<String> {
             use asn1rs::protocol::per::unaligned::BitWrite;
             shifted.write_bits_with_len(&[0xA0], 3).ok()?;
             shifted.write_bits_with_len(&bytes, len).ok()?;
-            w(|b| b.write_bitstring(lb, ub, ext, shifted.content(), 3, len as u64), |_| String::new())
+            w2!(|b| b.write_bitstring(lb, ub, ext, shifted.content(), 3, len as u64), |_| String::new())
         }
         // long values: generated on both sides, answered as length + hash, written and read back
         ["rt-octn", lb, ub, ext, n, seed] => {
